@@ -496,7 +496,9 @@ def groupAdd (name : Name) (c : TChange) : List (Name × List TChange) → List 
 
 inductive CtcErr where
   | key      -- KeyError (deleting something that is not there)
-  | notTree  -- nested change under a name that holds a non-tree (AssertionError / KeyError from the store)
+  | notTree  -- nested change under a name that holds a blob (`assert isinstance(sha_obj, Tree)` fails); under a
+             -- gitlink the store lookup of the commit id raises KeyError instead (`key`): submodule commits are
+             -- not in the store
   | fuel
   deriving DecidableEq, Repr
 
@@ -528,7 +530,7 @@ def ctcAux : Nat → Tree → List TChange → Except CtcErr Tree
           let orig : Except CtcErr Tree := match t.find g.1 with
             | none => .ok .nil
             | some (.dir sub) => .ok sub
-            | some (.file _) => .error .notTree
+            | some (.file l) => if isGitlinkMode l.mode then .error .key else .error .notTree
           match orig with
           | .error e => .error e
           | .ok sub =>
@@ -544,18 +546,13 @@ def maxLen : List TChange → Nat
 
 def commitTreeChanges (t : Tree) (cs : List TChange) : Except CtcErr Tree := ctcAux (maxLen cs + 1) t cs
 
-/-- the `changes` argument that expresses a `tree_changes` result (what a caller patching a tree with a
-diff passes): deletes become `(path, None, None)`, everything with a new side `(path, mode, sha)` -/
-def toTChanges : List Change → List TChange
-  | [] => []
-  | c :: cs =>
-    match c.type, c.old, c.new with
-    | .delete, some o, _ => (o.path, none) :: toTChanges cs
-    | .add, _, some n => (n.path, some ⟨n.mode, n.id⟩) :: toTChanges cs
-    | .modify, _, some n => (n.path, some ⟨n.mode, n.id⟩) :: toTChanges cs
-    | .copy, _, some n => (n.path, some ⟨n.mode, n.id⟩) :: toTChanges cs
-    | .rename, some o, some n => (o.path, none) :: (n.path, some ⟨n.mode, n.id⟩) :: toTChanges cs
-    | _, _, _ => toTChanges cs
+/-- the `changes` argument that expresses a diff (what a caller patching a tree with a `tree_changes` result
+passes), in normal form -- every path at most once: a removal `(path, None, None)` for every path the diff removes and
+does not install again, then `(path, mode, sha)` for every entry it installs -/
+def toTChanges (cs : List Change) : List TChange :=
+  let inst := (addedEntries cs).map (·.path)
+  ((removedPaths cs).filter (fun p => !inst.contains p)).map (fun p => (p, none)) ++
+    (addedEntries cs).map (fun e => (e.path, some ⟨e.mode, e.id⟩))
 
 /-! ### SHA-1 (execution only; validated against hashlib by the harness; nothing is proved about it) -/
 
